@@ -68,6 +68,8 @@ class Exec:
         for a in c.attrs:
             ev.append(["iter", a])
         ev.append(["clear"])
+        if not self.gens and getattr(c, "badattr", True):
+            ev.append(["badattr"])
         for s in c.slots:
             if c.pid[s] in self.held:
                 ev.append(["isr", s])
@@ -143,6 +145,14 @@ class Exec:
                 else:
                     self.flagged.add(pid)      # psutil has now *found* the pid recycled
                     self.stale[pid] = obj
+        elif k == "badattr":
+            # a call that fails on a misspelt attribute name: the caller gets its ValueError, and whatever the call had already noted
+            # (entries found recycled, entries gone) must not be lost for the iterations that follow
+            out = outcome(lambda: list(ps.process_iter(attrs=["name", "no_such_attr"])))
+            lab = "badattr:%s" % (out[1] if out[0] == "exc" else "ok")
+            if w.procs and not (out[0] == "exc" and out[1] == "ValueError"):
+                self.viol("invalid-attr-name-accepted", "process_iter(attrs=['name', 'no_such_attr']) -> %r" % (out,))
+            self.ref = None           # (which entries the failed call has already refreshed is not specified)
         elif k == "iter":
             lab = self.do_full_iter(ev[1])
         elif k == "gstart":
